@@ -1026,6 +1026,7 @@ class MPO(MPSGeometry):
             IdL = self.IdL[i + 1]
             IdR = self.IdR[i + 1]
             assert IdL is not None and IdR is not None
+            IdL, IdR = IdL % U1.shape[1], IdR % U1.shape[1]  # may be stored as negative indices, e.g. -1
             U1[:, IdL, :, :] = U1[:, IdL, :, :] + dt * U1[:, IdR, :, :]
             keep = np.ones(U1.shape[1], dtype=bool)
             keep[IdR] = False
@@ -1044,6 +1045,7 @@ class MPO(MPSGeometry):
         IdL = self.IdL[0]
         IdR = self.IdR[0]
         assert IdL is not None and IdR is not None
+        IdL, IdR = IdL % self.chi[0], IdR % self.chi[0]
         if IdL > IdR:
             IdLR_0 = IdL - 1
         else:
